@@ -1137,6 +1137,8 @@ class Walker:
             return simp(('bin', 'Eq' if name == 'eq' else 'Ne', a, b))
         if tr == 'core::cmp::Ord' and name == 'cmp' and len(args) == 2:
             return ('cmp', strip_ref(args[0]), strip_ref(args[1]))
+        if name == 'reverse' and len(args) == 1 and args[0][0] == 'cmp' and 'Ordering' in ckey:
+            return ('cmp', args[0][2], args[0][1])
         if tr in ('core::convert::From', 'core::convert::Into') and len(args) == 1:
             st = c.get('self_ty', '')
             return ('conv', st if tr.endswith('From') else (c['args'][1] if len(c['args']) > 1 else ''), args[0])
